@@ -9,9 +9,9 @@ import (
 
 var Discard = io.Discard
 
-func ReadAll(r io.Reader) ([]byte, error)   { return io.ReadAll(r) }
-func NopCloser(r io.Reader) io.ReadCloser   { return io.NopCloser(r) }
-func ReadFile(name string) ([]byte, error)  { return simos.ReadFile(name) }
+func ReadAll(r io.Reader) ([]byte, error)  { return io.ReadAll(r) }
+func NopCloser(r io.Reader) io.ReadCloser  { return io.NopCloser(r) }
+func ReadFile(name string) ([]byte, error) { return simos.ReadFile(name) }
 func WriteFile(name string, data []byte, perm simos.FileMode) error {
 	return simos.WriteFile(name, data, perm)
 }
